@@ -97,6 +97,7 @@ def _cases(rng, n):
     # --- end T6
     _cases_t2(rng, n, reqs, want)
     _cases_t4(rng, n, reqs, want)  # --- T4
+    _cases_t14(rng, n, reqs, want)  # --- T14
     return reqs, want
 
 
@@ -266,6 +267,38 @@ def _cases_t4(rng, n, reqs, want):
             "getds": [R(e.get(tuple(k), 5)) for k in probes]})))
 
 
+def _cases_t14(rng, n, reqs, want):
+    """--- T14: `xs[i] = v` (IndexError / negative indices), `xs.remove(v)` (ValueError), `abs` on ints and on exact rationals"""
+    from fractions import Fraction
+
+    def exc(thunk):
+        try:
+            return {"ok": [str(x) for x in thunk()]}
+        except IndexError:
+            return {"err": "index"}
+        except ValueError:
+            return {"err": "value"}
+
+    def setitem(xs, i, v):
+        ys = list(xs)
+        ys[i] = v
+        return ys
+
+    def remove(xs, v):
+        ys = list(xs)
+        ys.remove(v)
+        return ys
+    for _ in range(n):
+        xs = [rng.randrange(0, 5) for _ in range(rng.randrange(0, 6))]
+        i, v = rng.randrange(-8, 8), rng.randrange(0, 6)
+        reqs.append(("t14_list", {"xs": xs, "i": i, "v": v}))
+        want.append(("raw", {"set": exc(lambda: setitem(xs, i, v)), "remove": exc(lambda: remove(xs, v)), "abs": str(abs(i))}))
+        a = Fraction(rng.randrange(-20, 20), rng.choice([1, 2, 3, 8]))
+        b = abs(a)
+        reqs.append(("t14_abs", {"a": str(a.numerator) if a.denominator == 1 else f"{a.numerator}/{a.denominator}"}))
+        want.append(str(b.numerator) if b.denominator == 1 else f"{b.numerator}/{b.denominator}")
+
+
 def run(seed=0, n=120):
     """returns (number of comparisons, list of disagreements)"""
     rng = random.Random(f"prelude:{seed}")
@@ -276,7 +309,7 @@ def run(seed=0, n=120):
     got = drv.run(reqs)
     bad = []
     for (op, payload), w, g in zip(reqs, want, got):
-        if (op.startswith("t2_") or op.startswith("t4_")) and not isinstance(w, str):  # --- T4: same treatment for t4_ ops  # --- T2: structured answers compared after normalising ints
+        if (op.startswith("t2_") or op.startswith("t4_") or op.startswith("t14_")) and not isinstance(w, str):  # --- T4: same treatment for t4_ ops  # --- T2: structured answers compared after normalising ints
             w = w[1] if isinstance(w, tuple) else w
             if _norm_t2(g) != _norm_t2(w):
                 bad.append(f"{op} {payload}: CPython {w!r}, prelude {g!r}")
